@@ -61,8 +61,14 @@ package key
 //@ pure net.SplitHostPort
 
 //@ func StringToPoint(g, s) (p, err)
-//@   props C20
+//@   props C20 C15
 //@   modifies nothing
+//@   ensures [C15:a-decoding-error-does-not-quote-the-encoded-key] err != nil ==> !quotes(err, s)
+
+//@ func StringToScalar(g, s) (sc, err)
+//@   props C15
+//@   modifies nothing
+//@   ensures [C15:a-decoding-error-does-not-quote-the-encoded-secret] err != nil ==> !quotes(err, s)
 
 //@ func IdentityFromProto(n, targetScheme) (id, err)
 //@   props C20
@@ -113,3 +119,15 @@ package key
 //@   props C08 C09
 //@   modifies nothing
 //@   ensures [C08,C09:address-accessor] r == i.Addr
+
+// ---- C17: the group hash sorts the node list it hashes with a comparator over that same list --------------------------
+// (sort.Slice's own precondition: less(i, j) must compare elements i and j of the slice being sorted; otherwise the
+// hash depends on the order in which the nodes happen to be listed)
+//@ func (*Group).Hash$1(i, j) (r)
+//@   props C17
+//@   modifies nothing
+//@   ensures [C17:node-order-comparator-compares-the-indices-of-the-groups-nodes] r <==> g.Nodes[i].Index < g.Nodes[j].Index
+
+//@ func (*Group).Hash(g) (r)
+//@   props C17
+//@   call Slice#0: assert [C17:the-list-that-is-sorted-is-the-list-the-comparator-reads] asSlice(arg0, "[]*Node") == g.Nodes
